@@ -15,11 +15,11 @@ RULE = (
     "check_partials} on each stateful component in fwd and rev mode, pruned on a digest of every number reachable from the component "
     "(attributes, caches, LU factors, Jacobian storage, vectors, module-level arrays), to closure or the depth bound; group level: ALL "
     "histories with at most k deviations (inserted operations) from the optimiser pattern goto,tot,goto,tot,goto,tot on AeroPoint / "
-    "AerostructPoint models; for EVERY model and EVERY input the history [goto P0, totals, change ONLY that input to its P1/P2 value, totals]; after every history each probe (read outputs, totals, re-run then read, re-run then totals) must equal a "
+    "AerostructPoint models (aero, rotational, compressible with sideslip, compressible with rotation, structure-alone tube / wingbox, aerostructural tube / wingbox / point masses + fuel); for EVERY model and EVERY input the history [goto P0, totals, change ONLY that input to its P1/P2 value, totals]; after every history each probe (read outputs, totals, re-run then read, re-run then totals) must equal a "
     "fresh problem evaluated once at the current point; non-trivial = distinct state digests"
 )
 ASSUMPTIONS = [
-    "three design points per model (enough for 'stale value from the point before last'); depth / deviation bounds as stated",
+    "three design points per model (enough for 'stale value from the point before last'), the third with every zeroable input (thrusts, masses, rates, fuel, twist, shears, forces, circulations, displacements, alpha ...) at exactly zero; summary-preserving single-input transitions; depth / deviation bounds as stated",
     "histories containing check_partials are compared at 1e-4 of the row scale (the framework leaves FD values in constant sub-Jacobians); others at 1e-10 (direct) / 1e-7 (coupled)",
     "invariants are evaluated only in states where the model has been run at the current inputs (plus after an explicit re-run)",
     "OpenMDAO/NumPy/SciPy trusted",
